@@ -64,7 +64,7 @@ func runC02(c *Ctx) {
 		n := 0
 		for _, s := range successReturns(fn, 1) {
 			n++
-			ok = ok && msgFromRaw(s.Instr.(*ssa.Return).Results[0])
+			ok = ok && msgFromRaw(retResult(s.Instr.(*ssa.Return), 0))
 		}
 		c.Check(ok && n > 0, "C02.signed", "v1:marshalForSigning<-getRawDetails", c.P.Pos(fn.Pos()), "signed message is the serialised raw details", "v1 signing message does not derive from getRawDetails()")
 	}
@@ -75,7 +75,7 @@ func runC02(c *Ctx) {
 	var signLayout, verifyLayout []string
 	if fn := c.Func(Ref{"cert", "certificateV2", "marshalForSigning"}); fn != nil {
 		for _, s := range successReturns(fn, 1) {
-			buf := stripValue(s.Instr.(*ssa.Return).Results[0])
+			buf := stripValue(retResult(s.Instr.(*ssa.Return), 0))
 			ws := bufferWrites(fn, buf)
 			fs := map[string]bool{}
 			for _, w := range ws {
@@ -256,7 +256,7 @@ func runC02(c *Ctx) {
 		var sinks []Sink
 		okRet := true
 		for _, s := range successReturns(fn, 1) {
-			r := s.Instr.(*ssa.Return).Results[0]
+			r := retResult(s.Instr.(*ssa.Return), 0)
 			if str, ok := constString(r); ok && str == "" {
 				continue
 			}
@@ -307,7 +307,7 @@ func c02VerifyCalls(c *Ctx, fn *ssa.Function, ver string, isMsg func(ssa.Value) 
 	}
 	// true is returned only as the result of a verification primitive
 	for i, s := range boolReturns(fn, 0, true) {
-		r := s.Instr.(*ssa.Return).Results[0]
+		r := retResult(s.Instr.(*ssa.Return), 0)
 		call, _ := callOf(r)
 		ok := call != nil && (matchFunc(calleeObj(call), Ref{"crypto/ed25519", "", "Verify"}) || matchFunc(calleeObj(call), Ref{"crypto/ecdsa", "", "VerifyASN1"}))
 		c.Check(ok, "C02.signed", fmt.Sprintf("%s:CheckSignature-true#%d", ver, i), c.instrPos(s.Instr), "true only from a verification primitive", "CheckSignature can return true without a verification primitive deciding it")
